@@ -7,6 +7,12 @@ CHECKS = {
  "C20": dict(engine="primmon", category="exploration", technique="runtime monitor: round-trip + byte-consumption oracle with sentinel bytes over enumerated boundary families, R-der reference for identifier/length octets, checked + wrapping builds, Miri slice (thorough)",
    text="Every DER primitive call is executed against the real code under two rustc 'sanitizer' builds (overflow-checks/debug-assertions on, and both off); a monitor compares value read == value written, bytes consumed == bytes written (sentinels untouched) and the identifier/length octets with X.690. Exhaustive for the enumerated neighbourhoods of 2^(7k)/2^(8k), all 124 tags, all 256 boolean octets; random supplement seeded by VERIF_SEED. Held on the executions observed, not a proof.",
    design_ref="5 (C20)", note="trusted: the monitor's own X.690 8.1.2/8.1.3 transcription; rustc overflow/bounds checks as the sanitizer; Miri only in the thorough tier on a reduced slice"),
+ "C10": dict(engine="primmon", category="exploration", technique="runtime monitor: reference-model comparison (R-prim bit patterns from X.691) + read-back of own and canonical bits with cursor check, bounded-exhaustive argument enumeration incl. inadmissible arguments, checked + wrapping builds, fork sandbox for allocation aborts, Miri slice (thorough)",
+   text="Every public PackedWrite/PackedRead primitive is run on the real code for an enumerated argument space (exhaustive for lb in [-40,40] x |range| <= 300 x every value, index/length tables, boundary families, strings to 200000 items with every fragment-count class) and the produced bits are compared bit for bit with an independent closed-form model of X.691 ch. 11/16/17; the bits are read back (value, cursor position), and the canonical pattern is read as well when the writer deviates. Inadmissible arguments must give Err: a panic (checked build) or Ok/wrapped value (wrapping build) is a violation. Held on the executions observed.",
+   design_ref="5 (C10)", note="trusted: my transcription of X.691 in vgen::per (unit-tested widths/octets, cross-checked by the repo's own pinned fixtures through the typed checks); classification of which arguments are admissible (empty/absent extensible roots are treated as unspecified: only no-panic is demanded)"),
+ "C11": dict(engine="primmon", category="exploration", technique="runtime monitor: naive Vec<bool> reference model compared after every operation (destination bytes, cursor, buffer length, padding bits), bounded-exhaustive grid + random operation histories, checked + wrapping builds, Miri slice (thorough)",
+   text="Every BitRead/BitWrite entry point of (&[u8],&mut usize), (&mut [u8],&mut usize), BitBuffer and Bits is executed for all (src_offset, dst_position, len) in [0,33]^3 (quick; [0,41]^3 thorough) over buffers of 0..3 (0..5) bytes with four fill patterns - including out-of-range arguments, which must fail with Err and leave bytes and cursor untouched - plus random tuples to 64 bytes and random histories of up to 60 mixed operations on a BitBuffer mirrored on the model; after each operation the monitor compares every destination bit, the cursor, byte_len == ceil(bit_len/8) and zero padding. All 1024 (src%8, dst%8, len%8, len>16) classes must be seen (coverage floor).",
+   design_ref="5 (C11)", note="trusted: the Vec<bool> model; BitBuffer's read cursor is only observable through subsequent reads (drain at the end of each history)"),
 }
 
 NOT_YET = {}
